@@ -403,3 +403,35 @@ def steady_state_loop(prog):
     if not loops:
         raise AnalysisError('acceptance loop not found in ' + ss.qualname)
     return ss_raw, loops[0], subst
+
+
+def per_instance_defaults(prog, cls, prefix=''):
+    """data members set in the constructor of `cls` (names starting with `prefix`): the initial value is an object of
+    its own for every instance - not a module-level list / dict / set, nor a mutable default argument, shared by all.
+    -> [(attr, where, ok, text of the value)]"""
+    init = cls.methods.get('__init__')
+    if init is None:
+        raise AnalysisError('%s.__init__ not found' % cls.name)
+    mod = init.module
+    module_mutables = {}
+    for st in mod.tree.body:
+        if isinstance(st, ast.Assign) and len(st.targets) == 1 and isinstance(st.targets[0], ast.Name):
+            v = st.value
+            if isinstance(v, (ast.List, ast.Dict, ast.Set, ast.ListComp, ast.DictComp, ast.SetComp)) or (
+                    isinstance(v, ast.Call) and call_name(v) in ('list', 'dict', 'set')):
+                module_mutables[st.targets[0].id] = st
+    mutable_args = set()
+    a = init.node.args
+    pos = list(a.args)
+    for arg, d in zip(pos[len(pos) - len(a.defaults):], a.defaults):
+        if isinstance(d, (ast.List, ast.Dict, ast.Set)):
+            mutable_args.add(arg.arg)
+    out = []
+    for n in ast.walk(init.node):
+        if isinstance(n, ast.Assign):
+            for t in n.targets:
+                if isinstance(t, ast.Attribute) and isinstance(t.value, ast.Name) and t.value.id == 'self' and t.attr.startswith(prefix):
+                    v = n.value
+                    shared = isinstance(v, ast.Name) and (v.id in module_mutables or v.id in mutable_args)
+                    out.append((t.attr, '%s:%d' % (mod.rel, n.lineno), not shared, unparse(v)[:60]))
+    return out
